@@ -61,7 +61,7 @@ CHECKS.update({
 
 CHECKS.update({
  "C13": ("vsched", "exhaustive enumeration of bounded event histories on a real Factory x deviation-bounded schedule DFS, per-job fate ledger",
-   "Every history up to depth 4 (quick; 3 on secondary configurations) / 6 (thorough) over dispatch / complete / die (panic, Err, kill, kill right after Finished) / resize / drain / advance on a real factory with gate-controlled real workers, for 7 routing modes x discard settings, plus focused alphabets at greater depth: reduced deaths (depth 5), bursts (a request right behind the previous one), three keys of plain job flow (depth 6), limit changes, priority queues, rate-limited routers, a worker lingering in post_stop, a worker dying inside the factory's own handler (kill armed in the discard callback), deaths at the granularity of channel operations; schedules of the runs between events are explored with one deviation where deaths race with the factory. Oracle: each job is handled once, or refused once with an applicable reason, or lost with a dying worker (at most one per death, and only if its drop — jobs carry drop guards — precedes the replacement); nothing is handled twice, handled and discarded, or missing while workers are healthy.",
+   "Every history up to depth 4 (quick; 3 on secondary configurations) / 5 (thorough; 4 on secondary configurations) over dispatch / complete / die (panic, Err, kill, kill right after Finished) / resize / drain / advance on a real factory with gate-controlled real workers, for 7 routing modes x discard settings, plus focused alphabets at greater depth: reduced deaths (depth 5), bursts (a request right behind the previous one), three keys of plain job flow (depth 6), limit changes, priority queues, rate-limited routers, a worker lingering in post_stop, a worker dying inside the factory's own handler (kill armed in the discard callback), deaths at the granularity of channel operations; schedules of the runs between events are explored with one deviation where deaths race with the factory. Oracle: each job is handled once, or refused once with an applicable reason, or lost with a dying worker (at most one per death, and only if its drop — jobs carry drop guards — precedes the replacement); nothing is handled twice, handled and discarded, or missing while workers are healthy.",
    "task granularity; 2 keys, 2 initial workers (1..3 after resizes), default queue; one recorded known finding (stale Finished after replacement)", "DESIGN.md section 5 C13-C15"),
  "C14": ("vsched", "exhaustive enumeration of bounded event histories on a real Factory x deviation-bounded schedule DFS, routing monitors",
    "Same history sweep; monitors: no two workers run the same key at once (key-persistent, sticky), key-persistent keeps submission order per key, every job routed by custom hashing or round robin runs on a worker below the pool size requested last before its dispatch, whatever the hash returns (const, identity, usize::MAX), round robin spreads the first n jobs over n workers, queuer never leaves a job waiting while a worker is idle (probed at quiescence), one job at a time per worker.",
